@@ -29,7 +29,7 @@ def build(ctx):
              'IT_MAX': str((1 << (bits - (1 if sg else 0))) - 1) + ('' if sg else 'u'), 'IT_MIN': ('(-%d - 1)' % ((1 << (bits - 1)) - 1)) if sg else '0',
              'WIDE_MAX': '9223372036854775807' if sg else '18446744073709551615u', 'C13_INV_K': '', 'C13_INV_C': '',
              'WIDE_MIN': '(-9223372036854775807 - 1)' if sg else '0'}
-        units.append(Unit('c13_stripe_granular', 'intwp', 'specs/c12_stripe.c', 'c13_stripe_granular', defines=d, inst=t, timeout=150, signed_wrap=True,
+        units.append(Unit('c13_stripe_granular', 'intwp', 'specs/c12_stripe.c', 'c13_stripe_granular', defines=d, inst=t, timeout=400, signed_wrap=True,
                           nonprop_cls=['overflow', 'conversion'], expect=[r'assertion\.2', r'precondition']))
     c17.chunking_pieces(ctx)
     c17.mapper_pieces(ctx)
@@ -37,7 +37,7 @@ def build(ctx):
                       expect=[r'postcondition\.6'], replay=c17.replay_args('scsg')))
     for t, uu, sg in insts:
         d = c17.inst_defines(t, uu, sg)
-        common = dict(defines=d, inst=t, timeout=150, signed_wrap=True, nonprop_cls=['overflow', 'conversion'])
+        common = dict(defines=d, inst=t, timeout=400, signed_wrap=True, nonprop_cls=['overflow', 'conversion'])
         units.append(Unit('StaticChunkMapper.call', 'intwp', 'specs/c17_mapper.c', 'StaticChunkMapper_call', expect=[r'postcondition\.2'], replay=c17.replay_args('mapper'), **common))
         units.append(Unit('parallel_for_staticImpl.derive', 'intwp', 'specs/c17_mapper.c', 'psi_derive', expect=[r'postcondition\.4'], replay=c17.replay_args('derive'), **common))
         units.append(Unit('c13_static_granular', 'intwp', 'specs/c17_mapper.c', 'c13_static_granular', expect=[r'assertion\.1', r'precondition'], **common))
